@@ -24,9 +24,12 @@ func (t *dScript) Send(kind string, o scriptOpts) error {
 func (t *dScript) SendCCS() error             { return t.s.SendCCS() }
 func (t *dScript) SendAppData(p []byte) error { return t.s.SendAppData(p) }
 func (t *dScript) PeerFinishedOK() bool       { return t.s.PeerFinishedOK }
-func (t *dScript) WriteProtected() bool       { return t.s.WriteProtected() }
-func (t *dScript) HasMaster() bool            { return len(t.s.Master()) > 0 }
-func (t *dScript) HeaderLen() int             { return 12 }
-func (t *dScript) OfferedSessionID() []byte   { return t.s.OfferedSessionID() }
-func (t *dScript) SetResumeMaster(m []byte)   { t.s.ResumeMaster = m }
-func (t *dScript) Master() []byte             { return t.s.Master() }
+func (t *dScript) GuessPreMaster(n int, cand func(int) []byte) int {
+	return t.s.GuessPreMaster(n, cand)
+}
+func (t *dScript) WriteProtected() bool     { return t.s.WriteProtected() }
+func (t *dScript) HasMaster() bool          { return len(t.s.Master()) > 0 }
+func (t *dScript) HeaderLen() int           { return 12 }
+func (t *dScript) OfferedSessionID() []byte { return t.s.OfferedSessionID() }
+func (t *dScript) SetResumeMaster(m []byte) { t.s.ResumeMaster = m }
+func (t *dScript) Master() []byte           { return t.s.Master() }
